@@ -32,7 +32,7 @@ contract(
 from ethosu.vela.architecture_features import Accelerator, Block  # noqa: E402
 from ethosu.vela.api import NpuBlockTraversal  # noqa: E402
 from ethosu.vela.operation import NpuBlockType  # noqa: E402
-from ethosu.vela.tensor import MemType  # noqa: E402
+from ethosu.vela.tensor import MemType, TensorPurpose  # noqa: E402
 from ethosu.vela.weight_compressor import NpuWeightTensor, WeightKey, WeightRange  # noqa: E402
 
 from pyvc.slicer import drop_any, drop_before, drop_matching  # noqa: E402
@@ -46,6 +46,7 @@ REGISTRY.declare_class(
     g_span=TMap(PyInt), g_prev_end=PyInt, g_slice_start=PyInt, hw_traversal=TEnum(NpuBlockTraversal),
     # fields read by create_weights (address: the allocated address, a property backed by the global TensorAddressMap)
     mem_type=TEnum(MemType, members=list(MemType.all())), src_tensor=TOpt(TObj(NpuWeightTensor)), address=TInt(lo=0, hi=2**40),
+    purpose=TEnum(TensorPurpose),
 )
 
 
